@@ -2,7 +2,7 @@
 # dev helper: instrument + build ccheck into .build/dev (kept)
 set -e
 cd /verif
-export GOFLAGS=-mod=mod GOPROXY=off GOSUMDB=off GOTOOLCHAIN=local CGO_ENABLED=0
+export GOFLAGS=-mod=mod GOPROXY=off GOSUMDB=off GOTOOLCHAIN=local; export CGO_ENABLED=${CGO_ENABLED:-0}
 mkdir -p .build/dev .build/tools
 go1.26 build -o .build/tools/instrument ./tools/instrument
 .build/tools/instrument -repo ${VERIF_REPO:-/repo} -verif /verif -out .build/dev -mode sched -overlay .build/dev/overlay.json
